@@ -372,7 +372,14 @@ def getitemLoop [Zero α] : List (Nat × Ix) → Sp α → Except String (Sp α)
     | .ok s' => getitemLoop rest s'
 
 /-- `sparse_getitem(sparse, idxs)`: a scalar (`Sum.inl`) once every dimension was consumed -/
-def sparseGetitem [Add α] [Zero α] (s : Sp α) (idxs : List Ix) : Except String (Sum α (Sp α)) :=
+def normIx (fixed : Bool) (n : Nat) : Ix → Ix
+  | .int z => if fixed && z < 0 then .int (z + n) else .int z
+  | ix => ix
+
+/-- `fixed = false`: the code as it is (a negative integer matches no stored index: zeros, defect D31);
+`fixed = true`: negative integers count from the end (notes/C20_fix_3.diff). -/
+def sparseGetitem [Add α] [Zero α] (fixed : Bool) (s : Sp α) (idxs : List Ix) : Except String (Sum α (Sp α)) :=
+  let idxs := List.zipWith (fun n ix => normIx fixed n ix) s.shape idxs ++ idxs.drop s.shape.length
   if s.shape.length > 2 then .error "RuntimeError"
   else if idxs.length > s.shape.length then .error "RuntimeError"
   else match getitemLoop ((List.range idxs.length).zip idxs).reverse s with
@@ -481,6 +488,19 @@ def qrJitter [Zero α] [Neg α] [LT α] [DecidableLT α] (eps : α) (k : Nat) (r
 def stableQrR [Zero α] [Add α] [Neg α] [LT α] [DecidableLT α] (eps : α) (k : Nat) (R : M α) : M α :=
   let j := qrJitter eps k (fun i => R i i)
   fun a b => if a = b then R a b + j a else R a b
+
+/-- `stable_qr` on an `R` of shape `k × n2` (`k = min(m, n)`, `n2 = n`) with the shape behaviour of
+`R + torch.diag_embed(jitter_diag)`: the unchanged code (`fixed = false`) adds a `k × k` matrix to the
+`k × n2` matrix `R` — for a fat `R` (`n2 > k`) this raises when `k > 1` and broadcasts the single jitter value
+over the whole row when `k = 1` (defect D32); nothing is added when no pivot is near zero. -/
+def stableQr [Zero α] [Add α] [Neg α] [LT α] [DecidableLT α] (fixed : Bool) (eps : α) (k n2 : Nat) (R : M α) :
+    Except String (M α) :=
+  let absv : α → α := fun x => if x < 0 then -x else x
+  let anyZeroish := (List.range k).any fun i => absv (R i i) < eps
+  if !anyZeroish then .ok R
+  else if fixed || n2 = k then .ok (stableQrR eps k R)
+  else if k = 1 then .ok (fun a b => R a b + qrJitter eps k (fun i => R i i) 0)
+  else .error "RuntimeError"
 
 /-- back substitution `R X = B` for upper-triangular `R` (k × k), one column; `fuel = k` -/
 def backSubst [Zero α] [Add α] [Sub α] [Mul α] [Div α] (k : Nat) (R : M α) (b : Nat → α) : Nat → (Nat → α)
